@@ -982,9 +982,36 @@ func genSuiteAndInput(r *rng, wild bool) (string, string, cfgT) {
 	return c.str(), genInputFor(r, c), c
 }
 
+// sizeGrid: programmatic configurations whose name has a boundary length (powers of two and their neighbours, the longest
+// names the parser can produce) with every data input selected at its maximal size — the places where a pre-sized or pooled
+// message buffer, or a capacity computed from "maximal" parts, is one byte short
+func sizeGrid(r *rng) []string {
+	var out []string
+	key := genKey(r)
+	ks := hxs(spell(r, key))
+	for _, L := range []int{0, 1, 47, 48, 49, 63, 64, 65, 118, 119, 120, 127, 128, 129, 255, 256, 257, 400, 401} {
+		for _, pw := range []int64{1, 3} {
+			c := cfgT{kind: pick(r, []string{"C", "M"}), raw: strings.Repeat("R", L), hash: r.intn(3), digits: 6, challenge: 1, c: true, q: true, p: true, s: true, t: true, pw: pw, ts: 60}
+			in := fmt.Sprintf("I:%s:%s:%s:%s:%s", hx(r.bytes(8)), hx(r.bytes(128)), hx(r.bytes(pwLen(pw))), hx(r.bytes(128)), hx(r.bytes(8)))
+			out = append(out, fmt.Sprintf("gocra %s %s %s", ks, c.str(), in))
+			code := refOCRA(key, c, in)
+			if code != "" {
+				out = append(out, fmt.Sprintf("vocra %s %s %s %s", ks, hxs(code), c.str(), in))
+			}
+		}
+	}
+	// time-step tokens at the edges of the unit rule (no unit, unit only, several units), appended to a parsable name
+	for _, t := range []string{"T", "T1", "T30", "T120", "T1234", "TS", "TM", "T0S", "T5SS", "T5MS", "T05M", "T999H", "T1000S", "t30", "T30s", "T-1S", "T+1S"} {
+		out = append(out, "suite "+hxs("OCRA-1:HOTP-SHA1-6:QN08-"+t))
+		out = append(out, fmt.Sprintf("gocra %s R:%s I:-:%s:-:-:%s", ks, hxs("OCRA-1:HOTP-SHA1-6:QN08-"+t), hx([]byte("12345678")), hx(r.bytes(8))))
+	}
+	return out
+}
+
 func genC05(r *rng, n int, hostile bool) []string {
 	var out []string
 	out = append(out, editedSuiteOps(r)...)
+	out = append(out, sizeGrid(r)...)
 	// every registered suite with a boundary input
 	for _, name := range registered {
 		c, _ := cfgOfRegistered(name)
